@@ -401,6 +401,10 @@ def add(node: ir.Node, op, state: OptimizerState) -> ReturnValue:
         return None
     if isinstance(dim0, int) and isinstance(dim1, int):
         result_dim_value: int | ir.SymbolicDim = dim0 + dim1
+    elif (isinstance(dim0, int) and dim0 < 0) or (isinstance(dim1, int) and dim1 < 0):
+        # A symbolic value stands for a dimension, which users (e.g. Abs) take to be
+        # non-negative: the sum of a dimension and a negative number is not one.
+        return None
     else:
         result_dim_value = ir.SymbolicDim(f"{dim0}+{dim1}")
     output = _get_output(node, 0)
